@@ -212,9 +212,9 @@ func init() {
 		"fmt.Sprintf": func(vc *VC, st *State, c *ssa.CallCommon, args []Value, pos string) Value {
 			return vc.sprintf(st, c, args)
 		},
-		"(*log.Logger).Printf":  noop,
-		"(*log.Logger).Println": noop,
-		"(*log.Logger).Print":   noop,
+		"(*log.Logger).Printf":                                 noop,
+		"(*log.Logger).Println":                                noop,
+		"(*log.Logger).Print":                                  noop,
 		"github.com/vipnode/vipnode/v2/internal/pretty.Abbrev": noop,
 		// ---- encoding/json streams (C17): see /verif/assumed/stdlib.spec for the ghost fields
 		"encoding/json.NewDecoder": func(vc *VC, st *State, c *ssa.CallCommon, args []Value, pos string) Value {
